@@ -65,7 +65,7 @@ def _reply_view(outcome: Tuple[str, Any]) -> Any:
 
 def fam_history(w: World) -> None:
     ch = w.ch
-    n = 2 + ch.draw(30, 'history.len')
+    n = 2 + ch.draw(60, 'history.len')
     cfg = S.draw_config(ch, 3, middlewares=True, handlers=True)
     texts = _corpus(ch, 'h', n)
     for k in range(n):
@@ -87,7 +87,7 @@ def fam_history(w: World) -> None:
 
 def fam_threads(w: World) -> None:
     ch = w.ch
-    n_threads = 2 + ch.draw(4, 'threads.n')
+    n_threads = [2, 3, 4, 5, 8, 16][ch.weighted([4, 4, 3, 2, 2, 1], 'threads.n')]
     per = 1 + ch.draw(3, 'threads.per')
     cfg = S.draw_config(ch, 3, middlewares=True, handlers=True, force_async=False)
     corpora = [_corpus(ch, f'th{i}x', per) for i in range(n_threads)]
